@@ -128,6 +128,10 @@ func getRegister32Parser(regID RegisterID) func(ui32 uint32) Register {
 		return func(ui32 uint32) Register {
 			return ParseTXTDMAProtectedRangeRegister(ui32)
 		}
+	case TXTErrorCodeRegisterID:
+		return func(ui32 uint32) Register {
+			return ParseTXTErrorCode(ui32)
+		}
 	case MP0C2PMSG37RegisterID:
 		return func(ui32 uint32) Register {
 			return ParseMP0C2PMsg37Register(ui32)
@@ -142,10 +146,6 @@ func getRegister32Parser(regID RegisterID) func(ui32 uint32) Register {
 
 func getRegister8Parser(regID RegisterID) func(ui8 uint8) Register {
 	switch regID {
-	case TXTErrorCodeRegisterID:
-		return func(ui8 uint8) Register {
-			return ParseTXTErrorCode(ui8)
-		}
 	case TXTErrorStatusRegisterID:
 		return func(ui8 uint8) Register {
 			return ParseTXTErrorStatus(ui8)
